@@ -1,5 +1,6 @@
 import VlsModel.Lemmas.KVV
 import VlsModel.Gen.FnKvv
+import VlsModel.Gen.FnCloud
 import VlsModel.Lemmas.FnGen
 /-
 C16 — the in-memory store of the model (`KVV.Mem.putV`, `KVV.Mem.put`, `KVV.nextVer`) tied to the bodies of
@@ -226,5 +227,89 @@ theorem C16_fn_delete (f : Key → String) (hf : ∀ a b, f a = f b → a = b)
     Agree f (s.delete (f k)) (Mem.put t k []) := by
   unfold MemoryKVVStore.delete
   exact C16_fn_put f hf s t h k []
+
+/-! ## CloudKVVStore over a MemoryKVVStore: the read side (`do_get_version`, `do_get`, `get`, `get_version`)
+
+`vls-persist/src/kvv/cloud.rs` is generic over the local store; the methods of the field `local` are explicit function
+parameters of the generated definitions (`Gen/FnCloud.lean`).  They are instantiated here with the *generated*
+`MemoryKVVStore::get` / `get_version`, so the statement reaches the memory store's source too. -/
+
+open VlsModel.Gen.FnCloud (CloudKVVStore)
+
+/-- the code's cloud store against the model's (outside the poisoned state): local stores in agreement, the commit
+    logs both absent or in agreement on every key -/
+structure SimC (f : Key → String) (cs : CloudKVVStore MemoryKVVStore) (c : Cloud) : Prop where
+  np : c.poisoned = false
+  loc : Sim f cs.«local» c.loc
+  log : match cs.commit_log, c.log with
+        | none, none => True
+        | some cl, some lg => ∀ k, Rs.smapGet cl (f k) = lookup lg k
+        | _, _ => False
+
+/-- `do_get_version`: the pending version of the transaction if the key is in the log, else the local store's -/
+theorem C16_fn_cloud_do_get_version (f : Key → String) (cs : CloudKVVStore MemoryKVVStore) (t : Tab)
+    (h : Sim f cs.«local» t) (cl : List (String × (Nat × List Nat))) (lg : Tab)
+    (hl : ∀ k, Rs.smapGet cl (f k) = lookup lg k) (k : Key) :
+    cs.do_get_version (fun l key => l.get_version key) cl (f k)
+      = .ok (Option.map (fun (r : Rec) => r.1) (match lookup lg k with | some r => some r | none => lookup t k)) := by
+  unfold CloudKVVStore.do_get_version
+  rw [hl k]
+  cases hk : lookup lg k with
+  | none => simp [C16_fn_get_version f cs.«local» t h k]
+  | some r => obtain ⟨v, x⟩ := r; simp
+
+/-- `do_get`: log first, then the local store (read-your-writes by key) -/
+theorem C16_fn_cloud_do_get (f : Key → String) (cs : CloudKVVStore MemoryKVVStore) (t : Tab)
+    (h : Sim f cs.«local» t) (cl : List (String × (Nat × List Nat))) (lg : Tab)
+    (hl : ∀ k, Rs.smapGet cl (f k) = lookup lg k) (k : Key) :
+    cs.do_get (fun l key => l.get key) cl (f k)
+      = .ok (match lookup lg k with | some r => some r | none => lookup t k) := by
+  unfold CloudKVVStore.do_get
+  rw [hl k]
+  cases hk : lookup lg k with
+  | none => simp [C16_fn_get f cs.«local» t h k]
+  | some r => obtain ⟨v, x⟩ := r; simp
+
+/-- `get`: panics outside a transaction (`expect("not in transaction")`), else the model's `Cloud.get` -/
+theorem C16_fn_cloud_get (f : Key → String) (cs : CloudKVVStore MemoryKVVStore) (c : Cloud) (h : SimC f cs c) (k : Key) :
+    cs.get (fun l key => l.get key) (f k)
+      = (match (Cloud.get c k).2 with | some r => .ok r | none => .error .panic) := by
+  unfold CloudKVVStore.get Cloud.get
+  have hlog := h.log
+  simp only [h.np, Bool.false_eq_true, if_false]
+  cases hc : cs.commit_log with
+  | none =>
+    cases hg : c.log with
+    | none => simp [Rs.unwrap, Rs.panic, bind, Except.bind]
+    | some lg => rw [hc, hg] at hlog; exact hlog.elim
+  | some cl =>
+    cases hg : c.log with
+    | none => rw [hc, hg] at hlog; exact hlog.elim
+    | some lg =>
+      rw [hc, hg] at hlog
+      simp only [Rs.unwrap, Rs.pure_eq, Rs.bind_ok]
+      rw [C16_fn_cloud_do_get f cs c.loc h.loc cl lg hlog k]
+      cases lookup lg k <;> rfl
+
+/-- `get_version`: the version of what `get` returns -/
+theorem C16_fn_cloud_get_version (f : Key → String) (cs : CloudKVVStore MemoryKVVStore) (c : Cloud) (h : SimC f cs c) (k : Key) :
+    cs.get_version (fun l key => l.get_version key) (f k)
+      = (match (Cloud.get c k).2 with | some r => .ok (Option.map (fun (r : Rec) => r.1) r) | none => .error .panic) := by
+  unfold CloudKVVStore.get_version Cloud.get
+  have hlog := h.log
+  simp only [h.np, Bool.false_eq_true, if_false]
+  cases hc : cs.commit_log with
+  | none =>
+    cases hg : c.log with
+    | none => simp [Rs.unwrap, Rs.panic, bind, Except.bind]
+    | some lg => rw [hc, hg] at hlog; exact hlog.elim
+  | some cl =>
+    cases hg : c.log with
+    | none => rw [hc, hg] at hlog; exact hlog.elim
+    | some lg =>
+      rw [hc, hg] at hlog
+      simp only [Rs.unwrap, Rs.pure_eq, Rs.bind_ok]
+      rw [C16_fn_cloud_do_get_version f cs c.loc h.loc cl lg hlog k]
+      cases lookup lg k <;> rfl
 
 end VlsModel.Props.C16Fn
